@@ -24,6 +24,7 @@ Section Oracles.
   Lemma check_granted e client : check e client = Granted -> e = ENone \/ is_member e client = true.
   Proof.
     destruct e as [|l| |]; cbn [Handlers.check Handlers.is_member]; try discriminate; auto.
+    2:{ destruct (split46 pton4 pton6 client); discriminate. }
     destruct (contains pton4 pton6 false l client) eqn:C; try discriminate. intros _. right.
     now apply (contains_sound pton4 pton6 pton4_len pton6_len false).
   Qed.
